@@ -40,10 +40,32 @@ pub fn run(ctx: Ctx) -> ! {
         let valid: Vec<bool> = wits.iter().map(|(k, s)| keys::verify(k, &id, s)).collect();
         sigs.fetch_add(wits.len() as u64, Ordering::Relaxed);
         let group = b.era.group();
+        // which witnesses cover a key-locked input / collateral (first witness of that key)?
+        let mut needed_hashes: Vec<[u8; 28]> = vec![];
+        for (h, ix) in view.inputs().into_iter().chain(view.collateral()) {
+            if let Some(u) = b.utxo.iter().find(|u| u.tx_id == h && u.ix == ix) {
+                if let Some(PayCred::Key(kh)) = wire::utxo_out_view(u.era == Era::Byron, &u.bytes).map(|o| o.pay_cred()) {
+                    needed_hashes.push(kh);
+                }
+            }
+        }
+        let mut covering = vec![false; wits.len()];
+        for kh in &needed_hashes {
+            if let Some(i) = wits.iter().position(|(k, _)| wire::key_hash(k) == *kh) {
+                covering[i] = true;
+            }
+        }
         // (1)
         if let Some(i) = valid.iter().position(|ok| !ok) {
+            let class = if covering[i] {
+                "covering-witness"
+            } else if (0..i).any(|j| !covering[j] && valid[j]) {
+                "after-a-valid-uncovered-witness"
+            } else {
+                "first-uncovered-witness"
+            };
             found.add(
-                format!("c35:invalid-witness-accepted:{group}"),
+                format!("c35:invalid-witness-accepted:{class}:{group}"),
                 nd,
                 format!("accepted {} tx whose vkey witness #{i} of {} (key {}.., {}-byte key, {}-byte signature) is not a valid signature of the tx id", b.era.name(), wits.len(), hex::encode(&wits[i].0[..4.min(wits[i].0.len())]), wits[i].0.len(), wits[i].1.len()),
                 b,
@@ -101,9 +123,10 @@ pub fn run(ctx: Ctx) -> ! {
         crate::fail("C35 vacuous: no accepted case with extra witnesses / required signers / collateral");
     }
     found.flush(&ctx);
-    let mut cov = sum.coverage(
-        "TxLab space of the post-Byron eras (see C33); witness lists: every list of length <= 3 over {valid(K0), corrupt(K0), valid(K1), corrupt(K1), unrelated-valid, unrelated-corrupt, wrong-length key} in every order; the oracle runs on every ACCEPTED case; non-trivial = decoded, distinct by Blake2b of (tx, UTxO, environment)",
-    );
+    let mut cov = sum.coverage(&format!(
+        "TxLab space of the post-Byron eras: every base, single deviation and pair of deviations of different dimensions ({}); witness lists: every list over {{valid(K0), corrupt(K0), valid(K1), corrupt(K1), unrelated-valid, unrelated-corrupt, wrong-length key}} in every order; the oracle runs on every ACCEPTED case; non-trivial = decoded, distinct by Blake2b of (tx, UTxO, environment)",
+        bounds.describe()
+    ));
     cov.insert("accepted_checked".into(), json!(checked.load(Ordering::Relaxed)));
     cov.insert("signatures_verified_with_dalek".into(), json!(sigs.load(Ordering::Relaxed)));
     cov.insert("accepted_with_more_witnesses_than_needed".into(), json!(extra.load(Ordering::Relaxed)));
